@@ -31,11 +31,12 @@ def block_desc(max_txs=6, coll=True):
 
 
 CHUNKS = st.sampled_from([None, None, None, 41, 64, 97, 256, 1000])
+META = st.sampled_from([0, 0, 0, 1, 1, 2])
 
 
 def sync_case(min_blocks=3, max_blocks=24, max_txs=6, large=False):
     def build(activation, prefetch, reorg_limit, blocks, flushes, reveals, lat, coll, pads=(),
-              chunk=None):
+              chunk=None, meta=0):
         if pads:
             # the "large" stratum: some blocks carry hundreds of cheap extra transactions whose
             # outputs later blocks spend (thousands of UTXOs, tx numbers in the thousands)
@@ -57,7 +58,8 @@ def sync_case(min_blocks=3, max_blocks=24, max_txs=6, large=False):
             blocks[at]['txs'] = [{'ins': [c], 'outs': [[0, 0]]} for c in picks] + blocks[at]['txs']
         return {'activation': activation, 'prefetch': prefetch, 'reorg_limit': reorg_limit,
                 'blocks': blocks, 'flush': flush,
-                'reveals': [[1 + h % n, k] for h, k in reveals], 'lat': lat, 'chunk': chunk}
+                'reveals': [[1 + h % n, k] for h, k in reveals], 'lat': lat, 'chunk': chunk,
+                'meta': meta}
     return st.builds(
         build, st.integers(0, 9), st.integers(1, 8), st.sampled_from([1, 2, 3, 5, 8, 50]),
         st.lists(block_desc(max_txs), min_size=min_blocks, max_size=max_blocks),
@@ -70,7 +72,10 @@ def sync_case(min_blocks=3, max_blocks=24, max_txs=6, large=False):
         st.lists(st.sampled_from([0, 0, 0, 40, 120, 300]), min_size=1, max_size=8) if large
         else st.just(()),
         # chunk stratum: block files streamed in chunks of this many bytes (None = 25 MB)
-        CHUNKS)
+        CHUNKS,
+        # meta-file stratum: physical files of the headers / tx counts / tx hashes files hold 2.5
+        # (1) or exactly 2 (2) records instead of 200,000+ (node.META_SIZES)
+        META)
 
 
 def build_world(case):
@@ -184,6 +189,7 @@ def run_sync_case(scratch, case, parts, restart=True):
     shut down; reopen for serving; observe again.  Returns (message|None, sig, info).'''
     from pbt import node as node_mod
     node_mod.CHUNK_OVERRIDE = case.get('chunk')
+    node_mod.META_OVERRIDE = case.get('meta') or 0
     world = build_world(case)
     chain = world.chain()
     activation = case['activation']
@@ -224,11 +230,14 @@ def run_sync_case(scratch, case, parts, restart=True):
 
     if case.get('chunk'):
         info['classes'].add('small_chunks')
+    if case.get('meta'):
+        info['classes'].add('small_meta_files')
     try:
         try:
             run_sim(main, chooser=chooser, vt_deadline=5000)
         finally:
             node_mod.CHUNK_OVERRIDE = None
+            node_mod.META_OVERRIDE = 0
     except NodeDied as e:
         return f'block processing died: {e}', 'node_died', info
     except SettleTimeout as e:
